@@ -92,6 +92,18 @@ struct Shared {
 
 pub struct WorkerCtx {
     pub heartbeat: Arc<AtomicU64>,
+    pub listeners: crate::world::Listeners,
+}
+
+/// Panics inside the harness itself (not the code under test, whose tasks are isolated by tokio):
+/// a machinery failure, never a verdict.
+pub static HARNESS_PANICS: AtomicU64 = AtomicU64::new(0);
+
+fn guarded<R: Default>(f: impl FnOnce() -> R) -> R {
+    match std::panic::catch_unwind(std::panic::AssertUnwindSafe(f)) {
+        Ok(r) => r,
+        Err(_) => { HARNESS_PANICS.fetch_add(1, Ordering::SeqCst); R::default() }
+    }
 }
 
 /// `exec` runs one complete execution under the chooser (it builds its own runtime).
@@ -142,7 +154,7 @@ where
             let hb = heartbeats[w].clone();
             let busy = &busy[w];
             handles.push(s.spawn(move || {
-                let ctx = WorkerCtx { heartbeat: hb };
+                let ctx = WorkerCtx { heartbeat: hb, listeners: crate::world::Listeners::new() };
                 loop {
                     let work = {
                         let mut q = shared.queue.lock().unwrap();
@@ -156,7 +168,7 @@ where
                     let Some(work) = work else { return };
                     *busy.lock().unwrap() = Some((Instant::now(), work.prefix.clone()));
                     let mut ch = Chooser::new(work.prefix.clone(), work.expect.clone());
-                    let res = exec(&mut ch, &ctx);
+                    let res = guarded(|| exec(&mut ch, &ctx));
                     executions.fetch_add(1, Ordering::Relaxed);
                     transitions.fetch_add(ch.record.len() as u64 + res.steps, Ordering::Relaxed);
                     max_points.fetch_max(ch.record.len() as u64, Ordering::Relaxed);
@@ -179,7 +191,7 @@ where
                             let mut same = 0;
                             for _ in 0..2 {
                                 let mut c2 = Chooser::new(full.clone(), exp.clone());
-                                let r2 = exec(&mut c2, &ctx);
+                                let r2 = guarded(|| exec(&mut c2, &ctx));
                                 let k1: Vec<&String> = res.violations.iter().map(|v| &v.0).collect();
                                 let k2: Vec<&String> = r2.violations.iter().map(|v| &v.0).collect();
                                 if c2.diverged.is_none() && k1 == k2 { same += 1; }
@@ -270,18 +282,18 @@ where
             let hb = heartbeats[w].clone();
             let busy = &busy[w];
             hs.push(s.spawn(move || {
-                let ctx = WorkerCtx { heartbeat: hb };
+                let ctx = WorkerCtx { heartbeat: hb, listeners: crate::world::Listeners::new() };
                 loop {
                     let i = next.fetch_add(1, Ordering::Relaxed) as usize;
                     if i >= cases.len() { return; }
                     *busy.lock().unwrap() = Some(i);
-                    let res = exec(&cases[i], &ctx);
+                    let res = guarded(|| exec(&cases[i], &ctx));
                     transitions.fetch_add(res.steps, Ordering::Relaxed);
                     *outcomes.lock().unwrap().entry(res.outcome.clone()).or_insert(0) += 1;
                     if !res.violations.is_empty() {
                         let mut same = 0;
                         for _ in 0..2 {
-                            let r2 = exec(&cases[i], &ctx);
+                            let r2 = guarded(|| exec(&cases[i], &ctx));
                             let k1: Vec<&String> = res.violations.iter().map(|v| &v.0).collect();
                             let k2: Vec<&String> = r2.violations.iter().map(|v| &v.0).collect();
                             if k1 == k2 { same += 1; }
